@@ -31,7 +31,7 @@ from collections import Counter
 from hypothesis import strategies as st
 
 from vf import runner
-from vf.engine import Case, Failure, h, live_first
+from vf.engine import Case, Failure, h, live_first, deviation_sets
 from vf.project import Project
 from vf.render import c17_rust as rr
 
@@ -336,13 +336,10 @@ def judge(lin: str, vec: dict, atoms: list, violations: list, text: str, establi
         est = established.setdefault((lin, ai), [])
         app = [d for d in est if d in app] + [d for d in app if d not in est]
         explained = None
-        for size in range(1, len(app) + 1):
-            for devs in itertools.combinations(app, size):
-                a2 = atom_alternatives(atom, lin, vec, devs)
-                if a2 is not None and matches(obs, a2):
-                    explained = devs
-                    break
-            if explained:
+        for devs in deviation_sets("C17", app):
+            a2 = atom_alternatives(atom, lin, vec, devs)
+            if a2 is not None and matches(obs, a2):
+                explained = devs
                 break
         if explained:
             for d in explained:
